@@ -1015,6 +1015,224 @@ def flatten_function(index, fi, exclude=()):
     return clone
 
 
+# ---- renamed parameters of pinned private functions ----------------------------------------------------------------------------------
+def pinned_parameter_names(index):
+    """A private function of the pinned tree (core/anchor_sigs.json) whose parameters were renamed -- same number, same order,
+    positional or keyword-only -- is read with the pinned names: the parameters are renamed inside the body and in the keywords of
+    its call sites (`self._translate(info, window=w, name=n, addr_range=r)`), after which the pinned calling convention applies.
+    Only for names starting with an underscore (nobody outside the package can pass these by keyword), and only when the new
+    names do not occur otherwise in the function."""
+    import json
+    import os
+    with open(os.path.join(os.path.dirname(__file__), "anchor_sigs.json")) as f:
+        pinned = json.load(f)
+    done = {}
+    renames = {}
+    for f in index.all_functions():
+        sg = pinned.get(f.site)
+        if sg is None or not f.name.startswith("_") or f.name.startswith("__"):
+            continue
+        a = f.node.args
+        if a.vararg or a.kwarg or a.posonlyargs:
+            continue
+        cur = [x.arg for x in a.args + a.kwonlyargs]
+        old = list(sg["pos"]) + list(sg["kwonly"])
+        if len(cur) != len(old) or cur == old or set(cur) == set(old):
+            continue
+        mp = {c_: o_ for c_, o_ in zip(cur, old) if c_ != o_}
+        names_in_body = {n.id for n in ast.walk(f.node) if isinstance(n, ast.Name)}
+        if any(o_ in names_in_body and o_ not in cur for o_ in mp.values()):
+            continue
+        for x in a.args + a.kwonlyargs:
+            if x.arg in mp:
+                x.arg = mp[x.arg]
+        for n in ast.walk(f.node):
+            if isinstance(n, ast.Name) and n.id in mp:
+                n.id = mp[n.id]
+        renames[f.name] = (mp, set(cur))
+        f.params = [mp.get(p_, p_) for p_ in f.params]
+        done[f.site] = dict(mp)
+    if renames:
+        for g in index.all_functions():
+            for n in ast.walk(g.node):
+                if isinstance(n, ast.Call):
+                    name = n.func.attr if isinstance(n.func, ast.Attribute) else (n.func.id if isinstance(n.func, ast.Name) else None)
+                    target = n
+                    # functools.partial(self._f, kw=...) names the parameters as well
+                    if name == "partial" and n.args:
+                        inner = n.args[0]
+                        name = inner.attr if isinstance(inner, ast.Attribute) else (inner.id if isinstance(inner, ast.Name) else None)
+                    if name in renames:
+                        mp, cur = renames[name]
+                        if all(k.arg is None or k.arg in cur for k in target.keywords):
+                            for k in target.keywords:
+                                if k.arg in mp:
+                                    k.arg = mp[k.arg]
+    return done
+
+
+# ---- functools.partial, map(), divmod() --------------------------------------------------------------------------------------------
+def desugar_functional_idioms(index):
+    """Three spellings that only abbreviate:
+    * `q, r = divmod(a, b)` with plain operands is `q = a // b; r = a % b`;
+    * `F = functools.partial(G, *A, **K)` bound once to a local that is only called or handed to map(): `F(x)` is `G(*A, x, **K)`;
+    * `map(F, X)` over one iterable is the generator `(F(v) for v in X)` (lazy either way)."""
+    import copy
+    done = {}
+
+    def plain(e):
+        return not any(isinstance(x, (ast.Call, ast.Lambda, ast.Yield, ast.YieldFrom, ast.Await, ast.NamedExpr, ast.ListComp, ast.GeneratorExp,
+                                      ast.DictComp, ast.SetComp)) for x in ast.walk(e))
+
+    for f in index.all_functions():
+        count = 0
+        # divmod
+        def walk_block(stmts):
+            nonlocal count
+            i = 0
+            while i < len(stmts):
+                s = stmts[i]
+                for field in ("body", "orelse", "finalbody"):
+                    blk = getattr(s, field, None)
+                    if isinstance(blk, list) and blk and isinstance(blk[0], ast.stmt) and not isinstance(s, (ast.FunctionDef, ast.AsyncFunctionDef, ast.ClassDef)):
+                        walk_block(blk)
+                if isinstance(s, ast.Try):
+                    for h in s.handlers:
+                        walk_block(h.body)
+                if isinstance(s, ast.Assign) and len(s.targets) == 1 and isinstance(s.targets[0], ast.Tuple) and len(s.targets[0].elts) == 2 and \
+                        isinstance(s.value, ast.Call) and isinstance(s.value.func, ast.Name) and s.value.func.id == "divmod" and \
+                        len(s.value.args) == 2 and not s.value.keywords and all(plain(a_) for a_ in s.value.args) and \
+                        all(isinstance(t, ast.Name) for t in s.targets[0].elts):
+                    a_, b_ = s.value.args
+                    used = {n.id for n in ast.walk(s.value) if isinstance(n, ast.Name)}
+                    if not (used & {t.id for t in s.targets[0].elts}):
+                        q = ast.Assign(targets=[s.targets[0].elts[0]], value=ast.BinOp(left=copy.deepcopy(a_), op=ast.FloorDiv(), right=copy.deepcopy(b_)))
+                        r = ast.Assign(targets=[s.targets[0].elts[1]], value=ast.BinOp(left=copy.deepcopy(a_), op=ast.Mod(), right=copy.deepcopy(b_)))
+                        for x in (q, r):
+                            ast.copy_location(x, s)
+                            ast.fix_missing_locations(x)
+                        stmts[i:i + 1] = [q, r]
+                        count += 1
+                        i += 2
+                        continue
+                i += 1
+        walk_block(f.node.body)
+        # partial
+        binds = {}
+        for s in ast.walk(f.node):
+            if isinstance(s, ast.Assign) and len(s.targets) == 1 and isinstance(s.targets[0], ast.Name):
+                binds.setdefault(s.targets[0].id, []).append(s)
+        partials = {}
+        for nm, ss in binds.items():
+            v = ss[0].value
+            if len(ss) == 1 and isinstance(v, ast.Call) and ast.unparse(v.func) in ("functools.partial", "partial") and v.args and \
+                    not any(isinstance(a_, ast.Starred) for a_ in v.args) and all(k.arg is not None for k in v.keywords) and \
+                    all(plain(a_) for a_ in v.args[1:]) and all(plain(k.value) for k in v.keywords) and \
+                    nm not in [a_.arg for a_ in f.node.args.args + f.node.args.kwonlyargs]:
+                stores = [n for n in ast.walk(f.node) if isinstance(n, ast.Name) and n.id == nm and isinstance(n.ctx, ast.Store)]
+                loads = [n for n in ast.walk(f.node) if isinstance(n, ast.Name) and n.id == nm and isinstance(n.ctx, ast.Load)]
+                call_funcs = {id(c_.func) for c_ in ast.walk(f.node) if isinstance(c_, ast.Call)}
+                map_firsts = {id(c_.args[0]) for c_ in ast.walk(f.node) if isinstance(c_, ast.Call) and isinstance(c_.func, ast.Name) and
+                              c_.func.id == "map" and c_.args}
+                if len(stores) == 1 and loads and all(id(n) in call_funcs or id(n) in map_firsts for n in loads):
+                    partials[nm] = v
+
+        class M(ast.NodeTransformer):
+            def visit_Call(self, n):
+                nonlocal count
+                self.generic_visit(n)
+                if isinstance(n.func, ast.Name) and n.func.id == "map" and len(n.args) == 2 and not n.keywords and \
+                        isinstance(n.args[0], (ast.Name, ast.Attribute)) and not isinstance(n.args[1], ast.Starred):
+                    var = "_mapped"
+                    k_ = 0
+                    names = {x.id for x in ast.walk(f.node) if isinstance(x, ast.Name)}
+                    while var in names:
+                        k_ += 1
+                        var = f"_mapped{k_}"
+                    call = ast.Call(func=n.args[0], args=[ast.Name(id=var, ctx=ast.Load())], keywords=[])
+                    gen = ast.GeneratorExp(elt=call, generators=[ast.comprehension(target=ast.Name(id=var, ctx=ast.Store()), iter=n.args[1], ifs=[], is_async=0)])
+                    count += 1
+                    return ast.fix_missing_locations(ast.copy_location(gen, n))
+                return n
+        M().visit(f.node)
+
+        class P(ast.NodeTransformer):
+            def visit_Call(self, n):
+                nonlocal count
+                self.generic_visit(n)
+                if isinstance(n.func, ast.Name) and n.func.id in partials:
+                    pv = partials[n.func.id]
+                    new = ast.Call(func=copy.deepcopy(pv.args[0]), args=[copy.deepcopy(a_) for a_ in pv.args[1:]] + list(n.args),
+                                   keywords=[copy.deepcopy(k) for k in pv.keywords] + list(n.keywords))
+                    count += 1
+                    return ast.fix_missing_locations(ast.copy_location(new, n))
+                return n
+        if partials:
+            P().visit(f.node)
+
+            def drop(stmts):
+                for s in list(stmts):
+                    for field in ("body", "orelse", "finalbody"):
+                        blk = getattr(s, field, None)
+                        if isinstance(blk, list) and blk and isinstance(blk[0], ast.stmt) and not isinstance(s, (ast.FunctionDef, ast.AsyncFunctionDef, ast.ClassDef)):
+                            drop(blk)
+                    if isinstance(s, ast.Assign) and len(s.targets) == 1 and isinstance(s.targets[0], ast.Name) and s.targets[0].id in partials and \
+                            s.value is partials[s.targets[0].id]:
+                        stmts.remove(s)
+                        if not stmts:
+                            stmts.append(ast.copy_location(ast.Pass(), s))
+            drop(f.node.body)
+        if count:
+            done[f.site] = count
+    return done
+
+
+# ---- replicated unpacking ---------------------------------------------------------------------------------------------------------
+def desugar_replicated_unpack(index):
+    """`a, b = (E for _ in range(2))` (or a list comprehension) with E not mentioning the loop variable evaluates E once per target,
+    in order: `a = E; b = E`.  Likewise `a, b = E1, E2` is `a = E1; b = E2` when no target is read by a later value."""
+    import copy
+    done = {}
+
+    def walk_block(stmts, site):
+        i = 0
+        while i < len(stmts):
+            s = stmts[i]
+            for field in ("body", "orelse", "finalbody"):
+                blk = getattr(s, field, None)
+                if isinstance(blk, list) and blk and isinstance(blk[0], ast.stmt) and not isinstance(s, (ast.FunctionDef, ast.AsyncFunctionDef, ast.ClassDef)):
+                    walk_block(blk, site)
+            if isinstance(s, ast.Try):
+                for h in s.handlers:
+                    walk_block(h.body, site)
+            if isinstance(s, ast.Assign) and len(s.targets) == 1 and isinstance(s.targets[0], (ast.Tuple, ast.List)) and \
+                    isinstance(s.value, (ast.GeneratorExp, ast.ListComp)) and len(s.value.generators) == 1:
+                g = s.value.generators[0]
+                tg = s.targets[0].elts
+                k = None
+                if isinstance(g.iter, ast.Call) and isinstance(g.iter.func, ast.Name) and g.iter.func.id == "range" and len(g.iter.args) == 1 and \
+                        isinstance(g.iter.args[0], ast.Constant) and isinstance(g.iter.args[0].value, int) and not g.ifs and not g.is_async:
+                    k = g.iter.args[0].value
+                var = {n.id for n in ast.walk(g.target) if isinstance(n, ast.Name)}
+                uses_var = any(isinstance(n, ast.Name) and n.id in var for n in ast.walk(s.value.elt))
+                if k == len(tg) and not uses_var and not any(isinstance(t, ast.Starred) for t in tg):
+                    new = []
+                    for t in tg:
+                        a = ast.Assign(targets=[t], value=copy.deepcopy(s.value.elt))
+                        ast.copy_location(a, s)
+                        ast.fix_missing_locations(a)
+                        new.append(a)
+                    stmts[i:i + 1] = new
+                    done[site] = done.get(site, 0) + 1
+                    i += len(new)
+                    continue
+            i += 1
+
+    for f in index.all_functions():
+        walk_block(f.node.body, f.site)
+    return done
+
+
 # ---- enumerate idioms -------------------------------------------------------------------------------------------------------------
 def desugar_enumerate_idioms(index):
     """`zip(itertools.count(), X)` / `zip(count(), X)` / `zip(range(len(X)), X)` pair every element of X with its position:
@@ -1247,7 +1465,7 @@ def positional_calls(index):
 
 
 # ---- pure expression functions --------------------------------------------------------------------------------------------------
-_PURE_CALLS = ("slice", "max", "min", "len", "int", "bool", "tuple", "range", "abs", "isinstance", "exact_log2", "ceil_log2", "Shape.cast")
+_PURE_CALLS = ("flipped", "slice", "max", "min", "len", "int", "bool", "tuple", "range", "abs", "isinstance", "exact_log2", "ceil_log2", "Shape.cast")
 
 
 def _pure_expr(e):
@@ -1287,7 +1505,8 @@ def open_pure_functions(index):
             continue
         params = [x.arg for x in a.args + a.kwonlyargs]
         free = {n.id for n in ast.walk(body[0].value) if isinstance(n, ast.Name)} - set(params)
-        if any(nm not in f.module.imports and nm not in f.module.classes and nm not in ("slice", "max", "min", "len", "int", "bool", "tuple", "range",
+        ext = {al.asname or al.name.split(".")[0] for s_ in f.module.tree.body if isinstance(s_, (ast.Import, ast.ImportFrom)) for al in s_.names}
+        if any(nm not in f.module.imports and nm not in ext and nm not in f.module.classes and nm not in ("slice", "max", "min", "len", "int", "bool", "tuple", "range",
                                                                                            "abs", "isinstance", "exact_log2", "ceil_log2", "Shape", "str", "float")
                for nm in free):
             continue
